@@ -73,20 +73,30 @@ def gen_case(rng):
         bad = rng.choice(["nan", "zero"])
     # the security may sit in a sleeve (sub-strategy) that has its own commission schedule, different from the root's
     nested = rng.random() < 0.2
-    return {"price": price, "mult": mult, "integer": integer, "pos": pos, "comm": comm, "bidoffer": bo, "amount": amount,
+    hist = None
+    if rng.random() < 0.4:
+        # some history before the allocation: more dates, a spread that moves from date to date, and - for a flat security - either
+        # idle throughout (declared up front, never traded) or opened and closed earlier and idle since
+        n = rng.choice([3, 4, 5])
+        hist = {"n": n, "roundtrip": pk == "flat" and rng.random() < 0.5}
+        if bo is not None:
+            hist["spreads"] = [min(price * 0.5, bo * rng.choice([0.25, 0.5, 2.0, 3.0, 1.0])) for _ in range(n - 1)] + [bo]
+    return {"hist": hist, "price": price, "mult": mult, "integer": integer, "pos": pos, "comm": comm, "bidoffer": bo, "amount": amount,
             "amount_class": ak, "bad": bad, "grid": grid, "nested": nested}
 
 
 def build(bt, case):
     """root (StrategyBase) with one security at the case's state on the second date"""
     c = bt.core
-    dates = pd.date_range("2020-01-01", periods=2)
+    hist = case.get("hist") or {"n": 2, "roundtrip": False}
+    n = hist["n"]
+    dates = pd.date_range("2020-01-01", periods=n)
     p1 = case["price"]
     if case["bad"] == "nan":
         p1 = np.nan
     elif case["bad"] == "zero":
         p1 = 0.0
-    data = pd.DataFrame({"x": [case["price"], p1]}, index=dates)
+    data = pd.DataFrame({"x": [case["price"]] * (n - 1) + [p1]}, index=dates)
     sec = c.Security("x", multiplier=case["mult"])
     if case.get("nested"):
         sleeve = c.StrategyBase("sl", children=[sec])
@@ -100,7 +110,7 @@ def build(bt, case):
         root.set_commissions(E.make_comm(*case["comm"]))
     kw = {}
     if case["bidoffer"] is not None:
-        kw["bidoffer"] = pd.DataFrame({"x": [case["bidoffer"]] * 2}, index=dates)
+        kw["bidoffer"] = pd.DataFrame({"x": hist.get("spreads") or [case["bidoffer"]] * n}, index=dates)
     root.setup(data, **kw)
     root.adjust(1e9)
     root.update(dates[0])
@@ -108,25 +118,34 @@ def build(bt, case):
     if case.get("nested"):
         root.allocate(5e8, "sl")
     sec = holder.children["x"]
+    fn = holder.commission_fn
+    if hist["roundtrip"]:
+        holder.commission_fn = E.make_comm(0, 0, 0)
+        sec.transact(7.0)
+        root.update(dates[0])
+        sec.transact(-7.0)
+        holder.commission_fn = fn
+        root.update(dates[0])
+    for d in dates[1:n - 1]:
+        root.update(d)
     if case["pos"] != 0:
         # build the position at zero cost: swap the commission in afterwards
-        fn = holder.commission_fn
         holder.commission_fn = E.make_comm(0, 0, 0)
         sec.transact(case["pos"])
         holder.commission_fn = fn
-    root.update(dates[0])
+    root.update(dates[n - 2])
     if case["bad"] is None or case["pos"] == 0:
-        root.update(dates[1])
+        root.update(dates[n - 1])
     else:
         # a held position cannot be carried into a missing price (update raises); test refusal flat
         pass
     return root, sec, dates
 
 
-def cost_of(case, q, price):
+def cost_of(case, q, price, bo=None):
     m = case["mult"]
     fn = E.make_comm(*case["comm"])
-    bo = case["bidoffer"] or 0.0
+    bo = (case["bidoffer"] or 0.0) if bo is None else bo
     return q * price * m + abs(q) * 0.5 * bo * m + fn(q, price * m)
 
 
@@ -137,6 +156,9 @@ def run_case(ctx, bt, case, collect):
         ctx.count("build-raised:" + E.classify_exc(e))
         return
     amount = case["amount"]
+    # the spread that applies is the one of the date the tree stands at (a held position is not carried into a missing price)
+    sp_ = (case.get("hist") or {}).get("spreads")
+    bo_now = None if (sp_ is None or case["bidoffer"] is None) else float(sp_[list(dates).index(root.now)])
     pre = E.snap_world(bt, root)
     pos0 = sec._position
     price = sec._price
@@ -177,7 +199,7 @@ def run_case(ctx, bt, case, collect):
             ctx.violation("C05/closeout-leaves-position", "allocate(-value=%r) left position %r (was %r)" % (amount, sec._position, pos0), rd)
         return
     # nothing traded, nothing charged (a commission function may well quote a minimum fee for q = 0: it is not called)
-    cost = 0.0 if q == 0 else cost_of(case, q, price)
+    cost = 0.0 if q == 0 else cost_of(case, q, price, bo_now)
     if case["integer"] and pos0 != int(pos0) and abs(q - round(q)) <= 1e-9 * max(1.0, abs(pos0), abs(q)):
         q = float(round(q))       # the traded quantity is the difference of two non-whole positions: remove the subtraction's rounding noise
     if case["integer"] and q != int(q):
@@ -195,7 +217,7 @@ def run_case(ctx, bt, case, collect):
         return
     if case["integer"]:
         if q + 1 != -pos0 or True:
-            c1 = cost_of(case, q + 1, price)
+            c1 = cost_of(case, q + 1, price, bo_now)
             if c1 <= amount - tol and not (q + 1 == -pos0):
                 ctx.violation("C05/not-maximal", "allocate(%r): traded %r (cost %r) but %r would cost %r <= amount" % (amount, q, cost, q + 1, c1), rd)
     else:
